@@ -1,14 +1,15 @@
 #!/usr/bin/env python3
-"""tools/ingest_seed.py <agent_out_dir> <PROP> <k> : copy a verified sub-agent mutant into /verif/seeded/A-<PROP>-<k>/"""
+"""tools/ingest_seed.py <agent_out_dir> <PROP> <k> [prefix=A] : copy a verified sub-agent mutant into /verif/seeded/<prefix>-<PROP>-<k>/"""
 import json, os, shutil, sys
 src, prop, k = sys.argv[1], sys.argv[2], sys.argv[3]
-d = f"/verif/seeded/A-{prop}-{k}"
+pre = sys.argv[4] if len(sys.argv) > 4 else "A"
+d = f"/verif/seeded/{pre}-{prop}-{k}"
 os.makedirs(d, exist_ok=True)
 shutil.copy(f"{src}/mutant{k}.diff", f"{d}/patch.diff")
 shutil.copy(f"{src}/demo{k}.py", f"{d}/demo.py")
 notes = open(f"{src}/notes{k}.md").read() if os.path.exists(f"{src}/notes{k}.md") else ""
 open(f"{d}/notes.md", "w").write(notes)
-meta = {"id": f"A-{prop}-{k}", "property": prop, "origin": "independent sub-agent (given only the property text and a scratch worktree)",
+meta = {"id": f"{pre}-{prop}-{k}", "property": prop, "origin": "independent sub-agent (given only the property text and a scratch worktree)",
         "needs_to_manifest": notes.strip().splitlines()[0:12], "verified": {}, "detected_by": [], "history": []}
 if os.path.exists(f"{d}/meta.json"):
     old = json.load(open(f"{d}/meta.json"))
